@@ -55,7 +55,7 @@ def gen(c):
     return p
 
 def run(c):
-    c.mc('MC_Sponge', disabled=('DoCopy', 'DoSqueeze2', 'ReAbsorb'))
+    c.mc_bg('MC_Sponge', disabled=('DoCopy', 'DoSqueeze2', 'ReAbsorb'))
     c.assumptions += ['key/message VALUES sampled; PrfShort (inlen,outlen) grid 0..17 x 0..17 exhaustive; every single-bit wrong tag for mac_verify',
                       'a wrong 16-byte tag equal to the right one has probability 2^-128 (random tags)']
     p = gen(c)
